@@ -1,6 +1,6 @@
 (* C20 - Parsing is total: every input yields a result, never a panic on the "can't fail" unwraps;
    failure is always reported through the error list. *)
-From Chum Require Import Total Refine.
+From Chum Require Import Total Refine Corollaries.
 
 (* For every grammar, context, input, error type (zero-sized included), mode, start state and fuel:
    a failing (sub-)parser always leaves a pending error, and therefore neither the recovery
@@ -29,6 +29,22 @@ Theorem C20_normal_results_are_specified :
     post toks m s r s1 (sem K toks spn n g ctx (cur s) (alt s)).
 Proof. exact refine. Qed.
 
+(* the fuel bounding the model's recursion is not a semantic parameter: two runs from the same state that both answer
+   (with whatever fuels) give the same answer *)
+Theorem C20_answer_independent_of_fuel_ok :
+  forall K toks spn n n' m g ctx s v s1 r' s2,
+    inv toks s -> go no_quirks K toks spn n m g ctx s = (Ok v, s1) -> go no_quirks K toks spn n' m g ctx s = (r', s2) ->
+    (r' = Err \/ exists v2, r' = Ok v2) ->
+    r' = Ok v /\ cur s2 = cur s1 /\ alt s2 = alt s1 /\ sec s2 = sec s1 /\ ust s2 = ust s1.
+Proof. exact machine_fuel_independent_ok. Qed.
+
+Theorem C20_answer_independent_of_fuel_err :
+  forall K toks spn n n' m g ctx s s1 r' s2,
+    inv toks s -> go no_quirks K toks spn n m g ctx s = (Err, s1) -> go no_quirks K toks spn n' m g ctx s = (r', s2) ->
+    (r' = Err \/ exists v2, r' = Ok v2) ->
+    r' = Err /\ alt s2 = alt s1.
+Proof. exact machine_fuel_independent_err. Qed.
+
 (* non-vacuity: the zero-sized error type, a failing labelled parser under recover_with and map_err *)
 Example C20_example :
   let toks := [98]%N in
@@ -48,3 +64,5 @@ Proof. vm_compute. reflexivity. Qed.
 Print Assumptions C20_failure_leaves_error_and_unwraps_never_fire.
 Print Assumptions C20_top_level_reports_failure.
 Print Assumptions C20_normal_results_are_specified.
+Print Assumptions C20_answer_independent_of_fuel_ok.
+Print Assumptions C20_answer_independent_of_fuel_err.
